@@ -135,3 +135,4 @@ static std::string h_conv(const std::string& arg)
 	catch(std::exception& e) { return std::string("exc:") + exc_name(e); }
 }
 HANDLER("conv", h_conv);
+static Registrar reg_convwf("convwf", h_conv);
